@@ -142,6 +142,34 @@ pub fn run_case(line: &str) -> String {
                 Err(loc) => format!("PANIC {}", loc),
             }
         }
+        "ENCZ" => {
+            // like ENC, but the write_pdu closure writes only the first k bytes of a PDU of length n:
+            // the rest must be zero whatever the transmit buffer held before (serialize zero-fills)
+            let h = DataTelegramHeader {
+                da: p[1].parse().unwrap(),
+                sa: p[2].parse().unwrap(),
+                dsap: parse_opt(p[3]),
+                ssap: parse_opt(p[4]),
+                fc: parse_fc(p[5]),
+            };
+            let n: usize = p[6].parse().unwrap();
+            let prefix = unhex(p[7]);
+            let mut buf = vec![0xAAu8; 256];
+            let tl = h.telegram_len(n);
+            let r = guarded(|| {
+                let tx = TelegramTx::new(&mut buf);
+                let resp = tx.send_data_telegram(h.clone(), n, |b| b[..prefix.len()].copy_from_slice(&prefix));
+                (resp.bytes_sent(), resp.expects_reply())
+            });
+            match r {
+                Ok((sent, exp)) => {
+                    let wire = buf[..sent.min(buf.len())].to_vec();
+                    let out = format!("OK {} {} {} {}", hex(&wire), sent, opt_str(exp), tl);
+                    format!("{} | {}", out, decode_str(&wire))
+                }
+                Err(loc) => format!("PANIC {}", loc),
+            }
+        }
         "TOK" => {
             let da: u8 = p[1].parse().unwrap();
             let sa: u8 = p[2].parse().unwrap();
@@ -290,6 +318,20 @@ pub fn gen(seed: u64, thorough: bool, out: &mut dyn FnMut(String)) {
                 h.fc = *fc;
                 let pdu = rng.bytes(len);
                 out(enc_line(&h, &pdu, &[], 256));
+            }
+        }
+    }
+    // closures that write only part of the PDU (or nothing) into a dirty transmit buffer
+    for saps in 0..4u8 {
+        for n in [0usize, 1, 2, 6, 8, 9, 20, 100, 244] {
+            for _ in 0..(if thorough { 8 } else { 2 }) {
+                let h = random_header(&mut rng, &fcs, saps);
+                let k = rng.below(n as u64 + 1) as usize;
+                let prefix = rng.bytes(k);
+                out(format!(
+                    "ENCZ {} {} {} {} {} {} {}",
+                    h.da, h.sa, opt_str(h.dsap), opt_str(h.ssap), fc_str(h.fc), n, hex(&prefix)
+                ));
             }
         }
     }
